@@ -11,7 +11,10 @@ import (
 	"sort"
 	"strings"
 	"sync"
+	"sync/atomic"
+	"syscall"
 	"testing"
+	"time"
 
 	"github.com/db47h/decimal"
 	"pgregory.net/rapid"
@@ -472,4 +475,48 @@ func FuzzFail(t *testing.T, id string, f *Fail, c interface{}) {
 	enc, _ := json.Marshal(c)
 	writeFail(id, f, enc)
 	t.Fatalf("%s violated [%s]: %s\ncase: %s", id, f.Class, f.Msg, truncate(string(enc), 2000))
+}
+
+var hungBefore atomic.Bool
+
+// ProcessCPU returns the CPU time (user + system) this process has used so far.
+func ProcessCPU() time.Duration {
+	var ru syscall.Rusage
+	if syscall.Getrusage(syscall.RUSAGE_SELF, &ru) != nil {
+		return 0
+	}
+	return time.Duration(ru.Utime.Nano() + ru.Stime.Nano())
+}
+
+// Returns runs fn and reports whether it returned before BOTH budgets were used up: wall seconds of wall-clock time and
+// wall/2 seconds of CPU time of this process (a stalled machine uses no CPU time; a call that does not end uses a CPU
+// second per second). A panic in fn is re-raised in the caller. When it reports false, fn is still running in its
+// goroutine. Only for calls that take a tiny fraction of the budget when they work.
+func Returns(wall time.Duration, fn func()) bool {
+	if hungBefore.Load() && wall > 8*time.Second {
+		// (the abandoned call keeps a core busy: the cases that follow a first report - the shrinking attempts - wait 8 s)
+		wall = 8 * time.Second
+	}
+	done := make(chan interface{}, 1)
+	go func() {
+		defer func() { done <- recover() }()
+		fn()
+	}()
+	start, cpu0 := time.Now(), ProcessCPU()
+	tick := time.NewTicker(250 * time.Millisecond)
+	defer tick.Stop()
+	for {
+		select {
+		case r := <-done:
+			if r != nil {
+				panic(r)
+			}
+			return true
+		case <-tick.C:
+			if time.Since(start) >= wall && ProcessCPU()-cpu0 >= wall/2 {
+				hungBefore.Store(true)
+				return false
+			}
+		}
+	}
 }
